@@ -91,13 +91,13 @@ func genMut(t *rapid.T, label string, signer *keys.Key) Mut {
 		var kinds []string
 		switch signer.Kind[:2] {
 		case "rs":
-			kinds = []string{"rsa1024", "rsa2048", "rsa3072"}
+			kinds = []string{"rsa1024", "rsa2048", "rsa3072", "rsa2050", "rsa2052", "rsa1030"}
 		case "ds":
 			kinds = []string{"dsa1024", "dsa2048"}
 		case "ed":
 			kinds = []string{"ed25519"}
 		default:
-			kinds = []string{"p224", "p256", "p384", "p521", signer.Kind, signer.Kind}
+			kinds = []string{"p224", "p256", "p384", "p521", "bp256t1", signer.Kind, signer.Kind}
 		}
 		return Mut{Kind: "key", Key: genKeyOf(t, label+".k", kinds...)}
 	case 7:
@@ -111,7 +111,7 @@ func genMut(t *rapid.T, label string, signer *keys.Key) Mut {
 
 func genBlob(t *rapid.T) BlobCase {
 	c := BlobCase{Seed: rapid.Uint64().Draw(t, "seed"), Key: genKey(t, "key"), Source: "std"}
-	k := keys.Get(c.Key)
+	k := getKey(c.Key)
 	if rapid.IntRange(0, 9).Draw(t, "sha256") < 5 {
 		c.Hash = hashSHA256
 	} else {
@@ -155,7 +155,7 @@ func applyMut(p *presented, m Mut) string {
 	case "sigalg":
 		p.sig = m.A
 	case "key":
-		k := keys.Get(m.Key)
+		k := getKey(m.Key)
 		p.pub, p.key, p.keyName = k.Pub, k, k.Name
 	case "nilkey":
 		p.pub, p.key, p.keyName = nil, nil, "nil"
@@ -365,7 +365,7 @@ func judge(v *harness.Verdict, where string, got error, panicked any, want *refE
 
 func checkBlob(t *testing.T, c BlobCase) (v harness.Verdict) {
 	cryptotest.SetGlobalRandom(t, c.Seed)
-	k := keys.Get(c.Key)
+	k := getKey(c.Key)
 	p := &presented{pub: k.Pub, key: k, keyName: k.Name, hash: c.Hash, sig: nativeSig(k), msg: append([]byte(nil), c.Msg...)}
 	v.Class("key:"+k.Kind, "src:"+c.Source)
 
